@@ -2,6 +2,7 @@ import MosdnsVerif.Base.Hex
 import MosdnsVerif.Base.Facts
 import MosdnsVerif.Gen.Facts
 import MosdnsVerif.Model.C14
+import MosdnsVerif.Refine.C14
 
 namespace Driver.C14
 open Model.C14
@@ -28,7 +29,10 @@ def handle : List String → String
   | ["fwd", n, c, r, evs] =>
     match n.toNat?, c.toInt?, r.toNat?, (if evs == "-" then some [] else (evs.splitOn ",").mapM ev?) with
     | some n, some c, some r, some evs =>
-      let (picked, out) := exchange (Gen.Facts.c14MaxConcurrent.getD 0) n c r evs
+      let cl := clamp (Gen.Facts.c14MaxConcurrent.getD 0) c
+      let picked := pick n r cl
+      -- the collection loop runs the case body regenerated from the source (proved equal to `collect`)
+      let out := Refine.C14.collectGen cl 0 evs
       let sorted := picked.foldl (fun acc x => insertSorted x acc) []
       s!"picked={".".intercalate (sorted.map toString)} out={showOut out}"
     | _, _, _, _ => "bad-op"
